@@ -11,7 +11,7 @@
      core.Path.__init__ (the three asserts)            core.py:1142-1155 ppath_init
      core.Path.velocities                              core.py:1168-1173 ppath_velocities
      core.Path.reverse                                 core.py:1188-1203 ppath_reverse
-     core.Material.velocity / .attenuation             core.py:1270-1325 pm_velocity, pm_attenuation
+     core.Material.velocity / .attenuation             core.py:1270-1325 pm_velocity_opt, pm_attenuation
      ray.Rays.reverse + FermatPath.reverse + RayGeometry on the reversed rays, for ONE ray
                                                        ray.py:512-535, 587-588   rg_reverse
      ray.RayGeometry.from_path                         ray.py:948-964    ray_geometry_from_path
@@ -26,6 +26,18 @@
    Every function of arim.model works elementwise on the (n, m) arrays of rays, so the model
    answers for ONE ray (i, j); `raygeom` holds what RayGeometry answers for that ray.
    Python's outcomes are explicit: Ok v / Raise e.
+
+   REPAIR (after the run-time tie, see harness/ties/tie_C07.py):
+   (1) a fluid's transverse velocity is `None` in the model as in arim.Material (pm_vt : option T);
+       reverse_transmission_reflection_for_path hands the two velocities to snell_angles BEFORE the
+       per-interface helper is entered, so a None velocity raises TypeError (class EHelper) before
+       the helper's ValueError (unit) / NotImplementedError (kind None) / AttributeError (missing
+       reflection_against): tr_step_reverse tests this first; the helpers raise (TypeError, class
+       EHelper) when the material in the SOLID role of the interface has no transverse velocity.
+   (2) rg_inc holds conventional_inc_angle(i) for i = 1..n (the LAST interface included: a
+       RayGeometry answers there when the interface's inc flag is set, and a path longer than the
+       ray geometry reads it), rg_out holds conventional_out_angle(i) for i = 0..n-1 (the FIRST
+       interface included), so that the reversed record is again of this form.
 
    Definitions only. *)
 From Coq Require Import String Ascii.
@@ -42,8 +54,9 @@ Inductive perr :=
 | ENotImpl    (* NotImplementedError *)
 | EHelper.    (* raised inside transmission_at_interface / reflection_at_interface after the
                  unit and kind dispatch (AssertionError "you've broken the physics", or the
-                 TypeError of a fluid's transverse velocity None): the `None` of
-                 Model/Interface.v *)
+                 TypeError of a transverse velocity None): the `None` of Model/Interface.v; ALSO
+                 the TypeError of snell_angles called by reverse_transmission_reflection_for_path
+                 itself with a velocity None, before the helper is entered *)
 
 Inductive outcome (A : Type) : Type := Ok (a : A) | Raise (e : perr).
 Arguments Ok {A}. Arguments Raise {A}.
@@ -100,15 +113,32 @@ Inductive trkind := Transmission | Reflection.      (* TransmissionReflection *)
 Section Objects.
   Context {T : Type}.
 
-  (* arim.Material as far as C07's functions read it: the three constants (real floats)
-     and the two optional attenuation laws (functions of the frequency) *)
+  (* arim.Material as far as C07's functions read it: density and longitudinal_vel (real
+     floats), transverse_vel (a float or None: a fluid) and the two optional attenuation laws
+     (functions of the frequency) *)
   Record pmaterial := mkPMat {
-    pm_rho : T; pm_vl : T; pm_vt : T;
+    pm_rho : T; pm_vl : T;
+    pm_vt : option T;                 (* transverse_vel; None for a fluid *)
     pm_attl : option (T -> T);        (* longitudinal_att *)
     pm_attt : option (T -> T)         (* transverse_att   *)
   }.
+  (* Material.velocity(mode): longitudinal_vel / transverse_vel, None included *)
+  Definition pm_velocity_opt (m : pmaterial) (md : wmode) : option T :=
+    match md with ModeL => Some (pm_vl m) | ModeT => pm_vt m end.
+  Definition pm_vt_missing (m : pmaterial) : bool :=
+    match pm_vt m with None => true | Some _ => false end.
+  Definition pm_velocity_missing (m : pmaterial) (md : wmode) : bool :=
+    match pm_velocity_opt m md with None => true | Some _ => false end.
+  (* the NUMBER handed to the kernels of Model/Interface.v (whose `material K` has no None).
+     For a missing transverse velocity it is a placeholder (the longitudinal velocity) that is
+     never read: the loops below raise before a None velocity is used in arithmetic
+     (tr_step_reverse, transmission_call, reflection_call), and the kernels do not read the
+     transverse velocity of the material in the fluid role
+     (Proofs/PathReverseProofs.v, helper_ignores_fluid_role_vt) *)
+  Definition pm_vt_num (m : pmaterial) : T :=
+    match pm_vt m with Some v => v | None => pm_vl m end.
   Definition pm_velocity (m : pmaterial) (md : wmode) : T :=
-    match md with ModeL => pm_vl m | ModeT => pm_vt m end.
+    match md with ModeL => pm_vl m | ModeT => pm_vt_num m end.
   Definition pm_attenuation (m : pmaterial) (md : wmode) : option (T -> T) :=
     match md with ModeL => pm_attl m | ModeT => pm_attt m end.
 
@@ -151,8 +181,12 @@ Section Objects.
   (* what RayGeometry answers for one ray of a path with numinterfaces = n + 1:
        rg_vel  = rays.fermat_path.velocities              (n entries)
        rg_leg  = [inc_leg_size(k) for k = 1..n]            rg_leg[k-1]
-       rg_inc  = [conventional_inc_angle(i), i = 1..n-1]   rg_inc[i-1]
-       rg_out  = [conventional_out_angle(i), i = 1..n-1]   rg_out[i-1] *)
+       rg_inc  = [conventional_inc_angle(i), i = 1..n]     rg_inc[i-1]
+       rg_out  = [conventional_out_angle(i), i = 0..n-1]   rg_out[i]
+     (conventional_inc_angle(0) and conventional_out_angle(n) are None; the entry of the last /
+     first interface exists when that interface's inc / out normal-side flag is set, as
+     block-in-immersion set-ups do for the grid / the probe; the loops of beamspread read
+     i = 1..n-1 only, a path LONGER than the ray geometry reads conventional_inc_angle(n)) *)
   Record raygeom := mkRG {
     rg_numinterfaces : nat;
     rg_vel : list T;
@@ -164,13 +198,15 @@ Section Objects.
   (* Rays.reverse() seen through RayGeometry: the fermat path is reversed, the legs are
      walked backwards, and the incoming conventional angle of the reversed ray at an
      interface is the outgoing conventional angle of the forward ray there (C05,
-     inc_is_out_of_reverse: Interface.reverse swaps the normal-side flags) *)
+     inc_is_out_of_reverse: Interface.reverse swaps the normal-side flags): interface i of the
+     reversed path is interface n - i of the path, so inc'(i) = out(n - i) for i = 1..n and
+     out'(i) = inc(n - i) for i = 0..n-1 *)
   Definition rg_reverse (rg : raygeom) : raygeom :=
     mkRG (rg_numinterfaces rg) (rev (rg_vel rg)) (rev (rg_leg rg)) (rev (rg_out rg)) (rev (rg_inc rg)).
 
   Definition rg_velocity (rg : raygeom) (k : nat) : outcome T := lookup (rg_vel rg) k.
-  (* inc_leg_size(k): None at the first interface (the callers then fail on None),
-     IndexError beyond the last *)
+  (* inc_leg_size(k) / conventional_inc_angle(i): None at the first interface (the callers then
+     fail on None), IndexError beyond the last; the last interface (i = n) answers *)
   Definition rg_inc_leg_size (rg : raygeom) (k : nat) : outcome T :=
     if k =? 0 then Raise EAttr
     else if rg_numinterfaces rg <=? k then Raise EIndex
@@ -199,9 +235,10 @@ Section Objects.
     else if negb (length modes =? numlegs) then Raise EAssert
     else Ok (mkPPath interfaces materials modes None).
 
-  (* Path.velocities: tuple(material.velocity(mode) for material, mode in zip(materials, modes)) *)
-  Definition ppath_velocities (p : ppath) : list T :=
-    map (fun mm => pm_velocity (fst mm) (snd mm)) (combine (pp_materials p) (pp_modes p)).
+  (* Path.velocities: tuple(material.velocity(mode) for material, mode in zip(materials, modes));
+     an entry is None for the T mode in a fluid *)
+  Definition ppath_velocities (p : ppath) : list (option T) :=
+    map (fun mm => pm_velocity_opt (fst mm) (snd mm)) (combine (pp_materials p) (pp_modes p)).
 
   (* Path.reverse *)
   Definition ppath_reverse (p : ppath) : outcome ppath :=
@@ -231,9 +268,13 @@ Section TransRefl.
   Context {T K : Type} (N : Num T) (NK : Num K) (emb : T -> K).
 
   Definition kmat (m : pmaterial T) : material K :=
-    mkMaterial (emb (pm_rho m)) (emb (pm_vl m)) (emb (pm_vt m)).
+    mkMaterial (emb (pm_rho m)) (emb (pm_vl m)) (emb (pm_vt_num m)).
 
-  (* transmission_at_interface as called: unit check, kind dispatch, then the formulas *)
+  (* transmission_at_interface as called: unit check, kind dispatch, then the formulas.  Inside
+     a kind's branch every exception is of class EHelper; the material in the SOLID role
+     (material_out for fluid_solid, material_inc for solid_fluid) has its transverse_vel read
+     (snell_angles(alpha_fluid, c_fluid, solid.transverse_vel) / solid_l_fluid(c_t=...)): None
+     there is a TypeError *)
   Definition transmission_call (kind : option ikind) (m_inc m_out : pmaterial T)
              (mode_inc mode_out : wmode) (alpha : K) (u : option cunit) : outcome K :=
     match u with
@@ -242,6 +283,9 @@ Section TransRefl.
         match kind with
         | None => Raise ENotImpl
         | Some k =>
+            if pm_vt_missing (match k with FluidSolid => m_out | SolidFluid => m_inc end)
+            then Raise EHelper
+            else
             match transmission_at_interface NK k (kmat m_inc) (kmat m_out) mode_inc mode_out alpha u with
             | Some v => Ok v
             | None => Raise EHelper
@@ -249,7 +293,9 @@ Section TransRefl.
         end
     end.
 
-  (* reflection_at_interface as called; a missing reflection_against fails on None *)
+  (* reflection_at_interface as called; a missing reflection_against fails on None
+     (AttributeError on material_against.state_of_matter, before any arithmetic); the solid role
+     is material_inc for solid_fluid, material_against for fluid_solid *)
   Definition reflection_call (kind : option ikind) (m_inc : pmaterial T) (against : option (pmaterial T))
              (mode_inc mode_out : wmode) (alpha : K) (u : option cunit) : outcome K :=
     match u with
@@ -261,6 +307,9 @@ Section TransRefl.
             match against with
             | None => Raise EAttr
             | Some ag =>
+                if pm_vt_missing (match k with FluidSolid => ag | SolidFluid => m_inc end)
+                then Raise EHelper
+                else
                 match reflection_at_interface NK k (kmat m_inc) (kmat ag) mode_inc mode_out alpha u with
                 | Some v => Ok v
                 | None => Raise EHelper
@@ -290,7 +339,11 @@ Section TransRefl.
 
   (* body of the loop of reverse_transmission_reflection_for_path.  The complex conversion of
      the angle is made in the transmission branch only: at a reflection snell_angles is
-     applied to the REAL angle (real arcsin) and the result is converted afterwards. *)
+     applied to the REAL angle (real arcsin) and the result is converted afterwards.
+     snell_angles(angles, c_incident, c_refracted) = arcsin(c_refracted / c_incident * sin(angles))
+     is called HERE, before the helper: a velocity None (T mode in a fluid) is a TypeError of the
+     division, raised before the helper looks at the unit, the kind or reflection_against (but
+     after interface.kind.reverse() of a transmission). *)
   Definition tr_step_reverse (p : ppath T) (rg : raygeom T) (u : option cunit)
              (i : nat) (x : pinterface T) : outcome K :=
     match pi_tr x with
@@ -306,11 +359,17 @@ Section TransRefl.
             match pi_kind x with
             | None => Raise EAttr                (* interface.kind.reverse() on None *)
             | Some k =>
+                if pm_velocity_missing material_out mode_out || pm_velocity_missing material_inc mode_inc
+                then Raise EHelper               (* TypeError in snell_angles: float / None *)
+                else
                 transmission_call (Some (ikind_reverse k)) material_inc material_out mode_inc mode_out
                   (snell_angles NK (emb theta) (emb (pm_velocity material_out mode_out))
                                                (emb (pm_velocity material_inc mode_inc))) u
             end)
         | Reflection =>
+            if pm_velocity_missing material_inc mode_out || pm_velocity_missing material_inc mode_inc
+            then Raise EHelper                   (* TypeError in snell_angles *)
+            else
             reflection_call (pi_kind x) material_inc (pi_against x) mode_inc mode_out
               (emb (snell_angles N theta (pm_velocity material_inc mode_out)
                                          (pm_velocity material_inc mode_inc))) u
@@ -434,11 +493,22 @@ End BeamspreadIdx.
 Section View.
   Context {T K : Type} (emb : T -> K).
   (* the interior interface number i (1-based) as Model.Weights.iface; None when something
-     the loops need is missing *)
+     the loops need is missing — which includes the transverse velocity of the materials in the
+     solid role of the interface in either direction (a transmission: materials[i] for
+     fluid_solid, materials[i-1] for solid_fluid; a reflection: materials[i-1] and materials[i]
+     for solid_fluid, reflection_against for fluid_solid): Model.Weights has no None velocity *)
+  Definition solid_roles_ok (k : ikind) (tr : trkind) (mp mn : pmaterial T) (ag : option (pmaterial T)) : bool :=
+    match tr, k with
+    | Transmission, FluidSolid => negb (pm_vt_missing mn)
+    | Transmission, SolidFluid => negb (pm_vt_missing mp)
+    | Reflection, SolidFluid => negb (pm_vt_missing mp) && negb (pm_vt_missing mn)
+    | Reflection, FluidSolid => match ag with Some a => negb (pm_vt_missing a) | None => false end
+    end.
   Definition view_iface (p : ppath T) (rg : raygeom T) (i : nat) (x : pinterface T) : option (iface (K := K)) :=
     match pi_kind x, pi_tr x, nth_error (pp_materials p) (i - 1), nth_error (pp_materials p) i,
           nth_error (pp_modes p) (i - 1), nth_error (pp_modes p) i, nth_error (rg_inc rg) (i - 1) with
     | Some k, Some tr, Some mp, Some mn, Some mdp, Some mdn, Some th =>
+        if negb (solid_roles_ok k tr mp mn (pi_against x)) then None else
         match tr, pi_against x with
         | Transmission, _ =>
             Some (mkIface k true (kmat emb mp) (kmat emb mn) (kmat emb mn) mdp mdn (emb th))
@@ -465,7 +535,8 @@ End View.
 (* ---- the ray geometry record READ OFF the geometric model of C05 (Model/RayGeom.v) ----------
    RayGeometry(interfaces, rays) for the ray whose column of point indices rays.indices[:, i, j]
    is `ray`; vels = rays.fermat_path.velocities.  Every entry must be a value (a missing
-   normal-side flag gives ValueError, a bad index IndexError). *)
+   normal-side flag gives ValueError, a bad index IndexError): the inc flag of the interfaces
+   1..n and the out flag of the interfaces 0..n-1. *)
 From Arim Require Model.Vec3 Model.RayGeom.
 
 Section OfGeometry.
@@ -481,7 +552,7 @@ Section OfGeometry.
   Definition rg_of_geometry (ifs : list (RayGeom.iface (T:=T))) (ray : list nat) (vels : list T) : outcome (raygeom T) :=
     let n := length ifs - 1 in
     obind (omapM (fun k => res_to_outcome (RayGeom.inc_leg_size N ifs ray (Z.of_nat k))) (seq 1 n)) (fun legs =>
-    obind (omapM (fun i => res_to_outcome (RayGeom.conventional_inc_angle N ifs ray (Z.of_nat i))) (seq 1 (n - 1))) (fun incs =>
-    obind (omapM (fun i => res_to_outcome (RayGeom.conventional_out_angle N ifs ray (Z.of_nat i))) (seq 1 (n - 1))) (fun outs =>
+    obind (omapM (fun i => res_to_outcome (RayGeom.conventional_inc_angle N ifs ray (Z.of_nat i))) (seq 1 n)) (fun incs =>
+    obind (omapM (fun i => res_to_outcome (RayGeom.conventional_out_angle N ifs ray (Z.of_nat i))) (seq 0 n)) (fun outs =>
       Ok (mkRG (length ifs) vels legs incs outs)))).
 End OfGeometry.
